@@ -155,6 +155,68 @@ def _ob_feature_data(ii: int, lt: int, first: int) -> bool:
 
 
 # ---------------------------------------------------------------------------
+# 1c. a dimension linked to a COLUMN of a data frame: accepted iff 0 <= index < number of columns (any
+#     integer); then ticks / labels are that column as it is NOW, the unit is the column's unit (None when
+#     the frame has none), the label is the column's name; through this handle and a new one
+# ---------------------------------------------------------------------------
+def _ob_frame_link(idx: int, dk: int, with_units: bool, hist: int) -> bool:
+    """
+    pre: 0 <= dk < 2 and 0 <= hist < 3
+    post: __return__
+    """
+    E = _fixture()
+    host = E["b1.da"]                                  # rank 2
+    with untraced():
+        base = len(host.dimensions)
+        fr = E["b1"].create_data_frame("cols", "t", col_names=["t", "name", "n"], col_dtypes=[float, str, int],
+                                       data=[(0.5, "a", 7), (1.5, "b", 8)])
+        if with_units:
+            fr.units = ["ms", None, "mV"]
+        rd = host.append_range_dimension([7.0, 8.0])
+        sd = host.append_set_dimension(["q", "r", "s"])
+    dim = rd if dk == 0 else sd
+    if hist == 1:
+        dim.link_data_frame(fr, 2)                     # history: linked to another column before
+    elif hist == 2:
+        dim.link_data_array(E["b1.vec"], [-1])         # history: linked to an array before
+    before_ticks = list(rd.ticks) if dk == 0 else list(sd.labels)
+    ok = 0 <= idx < 3
+    try:
+        dim.link_data_frame(fr, idx)
+        accepted = True
+    except Exception:  # noqa
+        accepted = False
+    if accepted != ok:
+        return False
+    if not ok:
+        # refused: the dimension reports what it reported before
+        return (list(rd.ticks) if dk == 0 else list(sd.labels)) == before_ticks
+    col = [[0.5, 1.5], ["a", "b"], [7, 8]]
+    names = ["t", "name", "n"]
+    units = ["ms", None, "mV"] if with_units else [None, None, None]
+    for k in range(3):
+        if idx == k:
+            want, wname, wunit = col[k], names[k], units[k]
+    fresh = E["file"].blocks["b1"].data_arrays["da"].dimensions[base + dk]
+    for d in (dim, fresh):
+        got = [x.decode() if isinstance(x, bytes) else (x.item() if hasattr(x, "item") else x)
+               for x in (d.ticks if dk == 0 else d.labels)]
+        if got != want or not d.has_link:
+            return False
+        if dk == 0 and ((d.unit or None) != wunit or d.label != wname):     # "" and None both mean: no unit
+            return False
+    # the link is an alias: a cell written through the frame shows in the dimension at once
+    new = [9.5, "z", 99]
+    for k in range(3):
+        if idx == k:
+            fr.write_cell(new[k], position=[0, k])
+            want = [new[k], want[1]]
+    got = [x.decode() if isinstance(x, bytes) else (x.item() if hasattr(x, "item") else x)
+           for x in (dim.ticks if dk == 0 else dim.labels)]
+    return got == want
+
+
+# ---------------------------------------------------------------------------
 # 2. dimension link index rules, all integer vectors      PART = (dim kind, length)
 # ---------------------------------------------------------------------------
 def _ob_dim_link(i0: int, i1: int, i2: int, target: int, own_unit: bool, tgt_unit: bool) -> bool:
@@ -364,6 +426,13 @@ OBLIGATIONS = [
        replay=lambda a: _real("_ob_accept", a),
        outside="data frame lists (data frames do not work with the installed NumPy); "
                "MultiTag.positions / extents are single links, not lists - only aliasing is asserted"),
+    Ob("data_frame_column_link", _ob_frame_link, timeout=600,
+       functions=["nixio.dimensions.Dimension.link_data_frame", "nixio.dimensions.DimensionLink.values",
+                  "nixio.dimensions.DimensionLink.unit", "nixio.dimensions.DimensionLink.label",
+                  "nixio.dimensions.RangeDimension.ticks", "nixio.dimensions.SetDimension.labels"],
+       replay=lambda a: _real("_ob_frame_link", a),
+       outside="one frame of three columns (float, text, int), with and without units; the column index is any "
+               "integer; range and set dimension; with and without an earlier link"),
     Ob("feature_data_acceptance", _ob_feature_data, timeout=600,
        functions=["nixio.feature.Feature.data"], replay=lambda a: _real("_ob_feature_data", a)),
     Ob("dimension_link_index", _ob_dim_link, timeout=900,
